@@ -3,6 +3,7 @@
 
 import dill
 import multiprocessing
+import pickle
 
 
 def _run_dill_encoded(payload):
@@ -10,6 +11,15 @@ def _run_dill_encoded(payload):
     res = fun(args, **kwargs)
     res = dill.dumps(res)
     return res
+
+
+class _TaskFailure:
+    """
+    Wrapper used to send an exception raised by a task back from a worker process
+    """
+
+    def __init__(self, exception):
+        self.exception = exception
 
 
 class ParallelMap:
@@ -69,9 +79,18 @@ class ParallelMap:
         f_Z = equilibrium.f_Z
         while True:
             i, function, args, kwargs = task_queue.get()
-            result = function(
-                *args, equilibrium=equilibrium, psi=psi, f_R=f_R, f_Z=f_Z, **kwargs
-            )
+            try:
+                result = function(
+                    *args, equilibrium=equilibrium, psi=psi, f_R=f_R, f_Z=f_Z, **kwargs
+                )
+            except Exception as e:
+                # Send the exception back to the caller, which re-raises it. Otherwise
+                # this worker would die and the caller would wait forever for a result.
+                try:
+                    pickle.dumps(e)
+                except Exception:
+                    e = RuntimeError(f"{type(e).__name__}: {e}")
+                result = _TaskFailure(e)
             result_queue.put((i, result))
 
     def __call__(self, function, args_list, **kwargs):
@@ -103,5 +122,11 @@ class ParallelMap:
             raise ValueError("Some tasks not finished")
         if not self.result_queue.empty():
             raise ValueError("Some results not handled")
+
+        # If any tasks failed, raise the exception from the first one (in task order), as
+        # serial execution would.
+        for this_result in result:
+            if isinstance(this_result, _TaskFailure):
+                raise this_result.exception
 
         return result
